@@ -179,6 +179,17 @@ def apply_loop_rule(rule, header, ghost, log, unit):
         bp = ('let %s = %s[__i_%s];' if amp else 'let %s = &%s[__i_%s];') % (X, E, X)
         log.append({'unit': unit, 'rule': 'R4', 'before': h, 'after': nh + ' { ' + bp + ' .. }'})
         return '', nh, bp, ''
+    if rule == 'R4v':
+        # for X in EXPR   (EXPR: a Vec of Copy items, consumed by value)  ->  bind the Vec, iterate by index
+        m = re.match(r'for\s+(\w+)\s+in\s+(.+)$', h, re.S)
+        if not m:
+            raise ExtractError('%s: loop header does not match R4v: %s' % (unit, h))
+        X, E = m.group(1), m.group(2).strip()
+        pre = '{ let __v_%s = %s; ' % (X, E)
+        nh = 'for __i_%s in 0..__v_%s.len()' % (X, X)
+        bp = 'let %s = __v_%s[__i_%s];' % (X, X, X)
+        log.append({'unit': unit, 'rule': 'R4v', 'before': h, 'after': pre + nh + ' { ' + bp + ' .. } }'})
+        return pre, nh, bp, ' }'
     if rule == 'R5':
         # for I in (A..=B).rev()
         m = re.match(r'for\s+(\w+)\s+in\s+\(\s*(.+?)\s*\.\.=\s*(.+?)\s*\)\s*\.rev\(\)$', h, re.S)
@@ -212,7 +223,7 @@ def transform_body(unit, body, directives, log):
     body_start_ghost = {}
     for d in directives:
         if d['kind'] == 'loopbody' and d['where'] == 'start':
-            body_start_ghost[d['n']] = body_start_ghost.get(d['n'], '') + '\n' + d['text'] + '\n'
+            body_start_ghost[d['n']] = body_start_ghost.get(d['n'], '') + '\n// GHOST-BEGIN\n' + d['text'] + '// GHOST-END\n'
     for d in directives:
         kind = d['kind']
         ghost = d['text']
@@ -222,16 +233,23 @@ def transform_body(unit, body, directives, log):
                 raise ExtractError('%s: loop %d not found (body has %d loops)' % (unit, k, len(loops)))
             s_, he, close = loops[k]
             if d['where'] == 'end':
-                edits.append((close, close, '\n' + ghost + '\n'))
+                edits.append((close, close, '\n// GHOST-BEGIN\n' + ghost + '// GHOST-END\n'))
             elif not any(x['kind'] == 'loop' and x['n'] == k for x in directives):
                 edits.append((he + 1, he + 1, body_start_ghost[k]))
                 body_start_ghost[k] = ''
+            continue
+        if kind == 'afterloop':
+            k = d['n']
+            if k >= len(loops):
+                raise ExtractError('%s: loop %d not found (body has %d loops)' % (unit, k, len(loops)))
+            # position just after the loop's closing brace; ordered before a rule suffix inserted at the same offset
+            edits.append((loops[k][2] + 1, loops[k][2] + 1, '\n/*AFTERLOOP*/\n// GHOST-BEGIN\n' + ghost + '// GHOST-END\n'))
             continue
         if kind == 'beforeloop':
             k = d['n']
             if k >= len(loops):
                 raise ExtractError('%s: loop %d not found (body has %d loops)' % (unit, k, len(loops)))
-            edits.append((loops[k][0], loops[k][0], '\n' + ghost + '\n'))
+            edits.append((loops[k][0], loops[k][0], '\n// GHOST-BEGIN\n' + ghost + '// GHOST-END\n'))
             continue
         if kind == 'afterstmt':
             anchor = d['anchor']
@@ -244,7 +262,7 @@ def transform_body(unit, body, directives, log):
                 if mbody[j] in '([{':
                     j = match_close(mbody, j)
                 j += 1
-            edits.append((j + 1, j + 1, '\n' + ghost + '\n'))
+            edits.append((j + 1, j + 1, '\n// GHOST-BEGIN\n' + ghost + '// GHOST-END\n'))
             continue
         if kind == 'loop':
             k = d['n']
@@ -268,9 +286,9 @@ def transform_body(unit, body, directives, log):
             at = idxs[d['n']]
             if kind == 'after':
                 at += len(anchor)
-            edits.append((at, at, '\n' + ghost + '\n'))
+            edits.append((at, at, '\n// GHOST-BEGIN\n' + ghost + '// GHOST-END\n'))
         elif kind == 'pre':
-            edits.append((0, 0, '\n' + ghost + '\n'))
+            edits.append((0, 0, '\n// GHOST-BEGIN\n' + ghost + '// GHOST-END\n'))
         elif kind == 'rewrite':
             a, b, rule = d['from'], d['to'], d['rule']
             if rule not in REWRITE_RULES or not REWRITE_RULES[rule](a, b):
@@ -283,7 +301,7 @@ def transform_body(unit, body, directives, log):
                 edits.append((i, i + len(a), b))
                 log.append({'unit': unit, 'rule': rule, 'before': a, 'after': b})
     # loops with no directive are kept verbatim (Verus will demand invariants if it needs them)
-    edits.sort(key=lambda e: (e[0], e[1]))
+    edits = [e for _, e in sorted(enumerate(edits), key=lambda ie: (ie[1][0], ie[1][1], 0 if 'AFTERLOOP' in ie[1][2] else 1, ie[0]))]
     for (a, b), (c, d2) in zip([(e[0], e[1]) for e in edits], [(e[0], e[1]) for e in edits[1:]]):
         if c < b:
             raise ExtractError('%s: overlapping edits at %d..%d / %d..%d' % (unit, a, b, c, d2))
@@ -391,7 +409,7 @@ def process(template_path, info, out_lines, depth=0):
                     parts = t.split()
                     cur = {'kind': 'loop', 'n': int(parts[1]), 'rule': parts[2] if len(parts) > 2 else None, 'text': ''}
                     directives.append(cur)
-                elif (t.startswith('//@before') or t.startswith('//@after')) and not t.startswith('//@beforeloop') and not t.startswith('//@afterstmt'):
+                elif (t.startswith('//@before') or t.startswith('//@after')) and not t.startswith('//@beforeloop') and not t.startswith('//@afterstmt') and not t.startswith('//@afterloop'):
                     kind = 'before' if t.startswith('//@before') else 'after'
                     rest = t[len('//@' + kind):].strip()
                     n = 0
@@ -400,6 +418,9 @@ def process(template_path, info, out_lines, depth=0):
                         n, rest = int(mm.group(1)), mm.group(2)
                     anchor, _ = parse_q(rest)
                     cur = {'kind': kind, 'n': n, 'anchor': anchor, 'text': ''}
+                    directives.append(cur)
+                elif t.startswith('//@afterloop '):
+                    cur = {'kind': 'afterloop', 'n': int(t.split()[1]), 'text': ''}
                     directives.append(cur)
                 elif t.startswith('//@beforeloop '):
                     cur = {'kind': 'beforeloop', 'n': int(t.split()[1]), 'text': ''}
